@@ -166,6 +166,24 @@ for n, what in (("c10_stream_no_master", "no master open"), ("c10_stream_unknown
     add(n, ["C10"], "wr.rs", "U", "public write of a global binary element, %s: destination only extended; no known-size master open => buffer empty and element fully handed over; otherwise destination untouched and buffer extended" % what,
         "2 symbolic payload bytes, 3 symbolic buffered bytes; spec Tree", timeout_s=1200, mem_gb=8, stubs=WST, assumes=["Inv_w: no known-size master open => working buffer empty"])
 
+# extension round: C10 from the pre-states the real writer reaches after an unknown-size Start (header pending, not yet handed over)
+EXT_A = ["pre-state: only unknown-size masters open, the buffer holds N arbitrary pending bytes (the headers of unknown-size masters started since the last hand-over)"]
+add("c10_end_unknown_pending_header", ["C10"], "ext.rs", "U", "public write(End(Root)) with [Root unknown-size] open and the 9-byte header still pending: Ok, master closed, buffer empty, destination == the 9 pending bytes in order",
+    "9 symbolic pending bytes; spec Tree", timeout_s=1200, mem_gb=4, stubs=WST, assumes=EXT_A)
+add("c10_end_unknown_nested_pending_headers", ["C10"], "ext.rs", "U", "public write(End(A)) with [Root unknown, A unknown] open and both headers (18 bytes) pending: Ok, A closed, buffer empty, destination == the 18 pending bytes in order",
+    "18 symbolic pending bytes; spec Tree", timeout_s=1200, mem_gb=4, stubs=WST, assumes=EXT_A)
+add("c10_end_unknown_nothing_pending", ["C10"], "ext.rs", "U", "public write(End(Root)) with [Root unknown-size] open and an empty buffer: Ok, master closed, nothing buffered, destination untouched",
+    "empty buffer; spec Tree", timeout_s=1200, mem_gb=4, stubs=WST, assumes=EXT_A)
+add("c10_element_after_unknown_start", ["C10"], "ext.rs", "U", "public write of a global binary element with [Root unknown-size] open and the 9-byte header pending: buffer empty afterwards, destination == header | element",
+    "9 symbolic pending bytes, 2 symbolic payload bytes; spec Tree", timeout_s=1200, mem_gb=4, stubs=WST, assumes=EXT_A)
+add("c10_unknown_start_keeps_handed_over_prefix", ["C10"], "ext.rs", "U", "public write_advanced(Start(A), unknown size) under [Root unknown]: accepted, A open, destination ++ buffer == previous content | header(A) (nothing lost or reordered; whether the header is handed over at once is left open, as in the property)",
+    "2 symbolic pending bytes; spec Tree", timeout_s=1200, mem_gb=4, stubs=WST, assumes=EXT_A)
+
+# extension round: header parsing across a refill (some header bytes buffered, the rest dripping in from the source)
+for n, bufn, per, cap in (("hdr_refill_buf4_per1_cap16", 4, 1, 16), ("hdr_refill_buf1_per3_cap16", 1, 3, 16), ("hdr_refill_buf8_per1_cap24", 8, 1, 24), ("hdr_refill_buf0_per5_cap16", 0, 5, 16)):
+    add(n, ["C04", "C12", "C03"], "ext2.rs", "U", "peek_valid_tag_header with %d of 16 stream bytes buffered (allocation %d) and the rest delivered %d byte(s) per read: never an EOF/read error, result == ref_header(the 16 stream bytes), position unchanged, buffered bytes == stream bytes" % (bufn, cap, per),
+        "16 symbolic stream bytes; split/read size/allocation concrete; spec Flat, strict mode, no size limit, nothing open", tier="thorough", timeout_s=1500, mem_gb=10, stubs=["io", "hash"], assumes=["pre-state: cursor 0, base offset 0, source never fails"])
+
 # ---------------------------------------------------------------- public-API skeleton documents (Flat, <= 3 next() calls)
 DOC_A = ["structure (element types, payload lengths, cut, read partition, capacity) is concrete and enumerated; only payload bytes are symbolic", "spec Flat (all elements at root level), strict mode",
          "utf8 payloads are concrete ASCII text (all other payload bytes symbolic)"]
